@@ -1,4 +1,5 @@
 import pv
+READY = True
 
 SPEC = {
     "targets": ["Properties/C16.vo", "Run/C16.vo"],
